@@ -8,6 +8,10 @@ import (
 	"os"
 	"path/filepath"
 	"sort"
+	"strconv"
+	"strings"
+
+	"github.com/logrange/range/pkg/utils/fileutil"
 	"time"
 
 	. "verifharness/common"
@@ -26,7 +30,7 @@ type Step struct {
 
 type Surgery struct {
 	Name string `json:"name,omitempty"` // progress-torn: the pipe
-	Kind string `json:"kind"`           // tindex-torn | drop-window | progress-torn | tidx-drop | tidx-short | tidx-zero | tindex-damaged | pipes-damaged | record-removed | cindex-drop | cindex-stale | cindex-torn
+	Kind string `json:"kind"`           // tindex-torn | drop-window | progress-torn | registry-old-name | tidx-drop | tidx-short | tidx-zero | tindex-damaged | pipes-damaged | record-removed | cindex-drop | cindex-stale | cindex-torn
 	K    int    `json:"k,omitempty"`    // torn: keep K per mille of the file (always a proper prefix)
 	Part int    `json:"part,omitempty"`
 }
@@ -50,6 +54,11 @@ type Scenario struct {
 	// start ensures it
 	Ensure bool   `json:"ensure,omitempty"`
 	Pipe   string `json:"pipe,omitempty"` // fwd scenarios: the name of the forwarding pipe (default "pf")
+	// TagStyle: what the partitions' tag lines look like besides app=c07,p=<n>: 0 nothing more; 1 a quoted value with a
+	// blank; 2 non-ASCII key and value; 3 a value of 300 bytes; 4 a quoted value with = , { } and a backslash
+	TagStyle int `json:"tagstyle,omitempty"`
+	// Chunk: MaxChunkSize of the server in bytes (0: the default, one chunk per partition)
+	Chunk int `json:"chunk,omitempty"`
 }
 
 type Obs struct {
@@ -60,6 +69,7 @@ type Obs struct {
 	Count   int
 	Pipes   []string
 	Ranges  [][]int64
+	Bad     []string // events read whose message or fields are not what was written
 }
 
 const fwdPipe = "pf"
@@ -71,6 +81,11 @@ func (sc *Scenario) fwdName() string {
 		return sc.Pipe
 	}
 	return fwdPipe
+}
+
+// progressFile: pipes/pipe<escaped name>.dat
+func progressFile(dir, name string) string {
+	return filepath.Join(dir, "pipes", "pipe"+fileutil.EscapeToFileName(name)+".dat")
 }
 
 // registryFile: the file of the pipe definitions (registry.dat; pipes.dat for a server that keeps them there)
@@ -85,9 +100,20 @@ func registryFile(dir string) string {
 // tags of partition i; in a "fwd" scenario the last partition is the destination of the pipe "pf"
 func (sc *Scenario) tags(i int) string {
 	if sc.Kind == "fwd" && i == sc.NParts-1 {
-		return "logrange.pipe=" + sc.fwdName()
+		return "logrange.pipe=" + strconv.Quote(sc.fwdName())
 	}
-	return fmt.Sprintf("app=c07,p=%d", i)
+	t := fmt.Sprintf("app=c07,p=%d", i)
+	switch sc.TagStyle {
+	case 1:
+		t += `,note="two words"`
+	case 2:
+		t += ",ü=ñ☃"
+	case 3:
+		t += ",long=" + strings.Repeat("v", 300)
+	case 4:
+		t += `,q="a=b,c{d}\\e"`
+	}
+	return t
 }
 
 func (sc *Scenario) know() []string {
@@ -103,7 +129,7 @@ func observe(c *child, sc *Scenario) (Obs, error) {
 	if err != nil {
 		return Obs{}, err
 	}
-	o := Obs{Started: true, Parts: a.Parts, Count: a.Count, Pipes: a.Pipes}
+	o := Obs{Started: true, Parts: a.Parts, Count: a.Count, Pipes: a.Pipes, Bad: a.Bad}
 	for i := 0; i < sc.NParts; i++ {
 		var evs []int64
 		if a.Parts[i].Exists {
@@ -112,6 +138,7 @@ func observe(c *child, sc *Scenario) (Obs, error) {
 				return Obs{}, err
 			}
 			evs = r.Events
+			o.Bad = append(o.Bad, r.Bad...)
 		}
 		o.Ranges = append(o.Ranges, evs)
 	}
@@ -131,6 +158,12 @@ func rangeComplete(sc *Scenario, events, answer []int64) bool {
 
 func tornPrefix(data []byte, perMille int) []byte {
 	n := len(data) * perMille / 1000
+	switch {
+	case perMille >= 2000:
+		n = len(data) - (perMille - 2000) // so many bytes before the end
+	case perMille >= 1000:
+		n = perMille - 1000 // so many bytes
+	}
 	if n >= len(data) {
 		n = len(data) - 1
 	}
@@ -255,10 +288,18 @@ func applySurgery(dir string, s Surgery, saved map[string][]byte, tr *trace) err
 		}
 		out, _ := json.Marshal(m)
 		return ioutil.WriteFile(tdat, out, 0640)
+	case "registry-old-name":
+		// the directory as the previous version of the server left it: the pipe definitions in pipes.dat, no registry.dat
+		// (not in the model: the definitions are the same object under either name)
+		reg := filepath.Join(dir, "pipes", "registry.dat")
+		if _, err := os.Stat(reg); err != nil {
+			return nil
+		}
+		return os.Rename(reg, filepath.Join(dir, "pipes", "pipes.dat"))
 	case "progress-torn":
 		// a crash inside the in-place rewrite of the progress file of the forwarding pipe (pipes/pipe<name>.dat is written
 		// by ioutil.WriteFile after every batch): any proper prefix of it, the empty file included
-		return tear(filepath.Join(dir, "pipes", "pipe"+s.Name+".dat"))
+		return tear(progressFile(dir, s.Name))
 	case "cindex-drop":
 		err := os.Remove(cdat)
 		if os.IsNotExist(err) {
@@ -285,6 +326,7 @@ type trace struct {
 	pre     []Obs    // one per session: what the server showed just before the session ended
 	obs     []Obs    // one per start
 	errs    []string // harness-level notes
+	stepErr string   // a plain request (write, flush, pipe create / delete) the server refused: the scenario ended there
 	drops   []string // per partition removal: which of its two file-system effects came first ("data-first", "record-first", "unseen")
 	inject  []string // how every injected crash ended ("start:died:file size limit exceeded", ...)
 	cdatOld bool
@@ -308,6 +350,8 @@ func runScenario(sc *Scenario) (*trace, error) {
 			c, started, msg, err = startRealChild(dir)
 		} else if sc.Ensure {
 			c, started, msg, err = startEnsureChild(dir, 600000, sc.fwdName())
+		} else if sc.Chunk > 0 {
+			c, started, msg, err = startChildMode("serve", dir, 600000, -1, fmt.Sprintf("chunk:%d", sc.Chunk))
 		} else {
 			c, started, msg, err = startChild(dir, 600000)
 		}
@@ -405,6 +449,12 @@ func runScenario(sc *Scenario) (*trace, error) {
 			if dw != nil {
 				tr.drops = append(tr.drops, dw.order())
 			}
+			if err != nil && (st.Op == "write" || st.Op == "sync" || st.Op == "pipe" || st.Op == "delpipe") && !strings.Contains(err.Error(), "no answer from the server process") {
+				// the server refuses a plain request: a verdict of the oracle (the scenario ends here), not a failure of the harness
+				c.kill()
+				tr.stepErr = fmt.Sprintf("session %d, step %q: %v", si, st.Op, err)
+				return tr, nil
+			}
 			if err != nil {
 				c.kill()
 				return nil, fmt.Errorf("session %d: %v", si, err)
@@ -496,7 +546,7 @@ func runScenario(sc *Scenario) (*trace, error) {
 		}
 		for _, sg := range ss.Surgery {
 			if sg.Kind == "progress-torn" {
-				if _, err := os.Stat(filepath.Join(dir, "pipes", "pipe"+sc.fwdName()+".dat")); err == nil {
+				if _, err := os.Stat(progressFile(dir, sc.fwdName())); err == nil {
 					positionLost, pendingAtTear = true, lastRound
 				}
 			}
